@@ -48,6 +48,18 @@ PFinish ==
 PNext == PCompose \/ PFinish
 PSpec == PInit /\ [][PNext]_pvars
 
+\* C08: acb sorts ALL rows by (settlement day, global read index) and then splits them by security;
+\* the resulting processing order of a security is the order obtained from its own rows alone
+GlobalRows == [n \in DOMAIN hist |-> [sec |-> psec[n], row |-> MkRow(hist[n], n - 1)]]
+GlobalOrder == SortSeq(GlobalRows, LAMBDA a, b : RowLess(a.row, b.row))
+SameRowButIdx(a, b) == [a EXCEPT !.idx = 0] = [b EXCEPT !.idx = 0]
+InvIndependent ==
+  phase = "done" =>
+    \A s \in UsedSecs :
+      LET fromAll == SelectSeq(GlobalOrder, LAMBDA x : x.sec = s)
+          alone == Order([k \in DOMAIN RowsOfSec(s) |-> [RowsOfSec(s)[k] EXCEPT !.idx = k - 1]])
+      IN  Len(fromAll) = Len(alone) /\ \A k \in DOMAIN alone : SameRowButIdx(fromAll[k].row, alone[k])
+
 \* structural laws of the cost tables on every completed input whose securities all complete
 InvCosts ==
   (phase = "done" /\ \A s \in UsedSecs : Completed(s)) =>
